@@ -193,6 +193,18 @@ def gen_cases(tier, seed):
                              for s_ in ir.obj_index_list(o_)})
             pre = r.choice(['einstein', [], allidx,
                             r.sample(allidx, min(len(allidx), 2))])
+        if k == 0:
+            # fixed exhibit of the open finding F34
+            cases.append({'id': f'C20-{tier[0]}{seed}-F34-exhibit',
+                          'terms': [{'pref': '1/2', 'objs': [
+                              {'t': 'non', 'name': 'U', 'up': ['c', 'e']},
+                              {'t': 'non', 'name': 'U', 'up': ['a', 'e']},
+                              {'t': 'non', 'name': 'U', 'up': ['b', 'a'],
+                               'exp': -1},
+                              {'t': 'non', 'name': 'U', 'up': ['b', 'c']},
+                              {'t': 'non', 'name': 'U', 'up': ['b', 'b']}]}],
+                          'pre_targets': None, 'explicit': None, 'flag': True,
+                          'dims': [3, 3], 'mseed': 624194427})
         cases.append({'id': f'C20-{tier[0]}{seed}-{k:05d}', 'terms': terms,
                       'pre_targets': pre,
                       'explicit': explicit, 'flag': r.random() < 0.5,
@@ -355,4 +367,9 @@ def _pattern(t):
 
 
 def _tags(case):
+    # F34 (open): with evaluate_deltas=True a substitution can make U_xy / U_xy
+    # cancel, the summed index vanishes from the term and its sum is lost
+    if case['flag'] and any(o.get('name') == 'U' and o.get('exp', 1) < 0
+                            for t in case['terms'] for o in t['objs']):
+        return ['inverse_power_with_delta_evaluation']
     return []
